@@ -732,6 +732,13 @@ def _virgin_loss(beh, upto):
 
 
 def _replay_sinks(beh):
+    """beh: a behaviour of Gen_Logging (GSpecBoot) as TLC printed it (JSON text: the parent process keeps text only).
+    returns the key of the case, whether it is non-trivial, and the first mismatch (None: reproduced)"""
+    if isinstance(beh, str):
+        beh = json.loads(beh)
+    acts = beh[:1] + [{k: v for k, v in s.items() if k != 'exp'} for s in beh[1:]]
+    res = {'key': 'sinks' + json.dumps(acts[1:], sort_keys=True) + json.dumps(beh[0], sort_keys=True),
+           'nontrivial': any(set(s['exp']['last'].get('sinks', ())) - {'console'} for s in beh), 'bad': None}
     boot_step = beh[0]
     mods = sorted(boot_step['exp']['level'])
     conns = sorted(boot_step['exp']['level'][mods[0]])
@@ -742,13 +749,14 @@ def _replay_sinks(beh):
             got = w.step(st)
             exp = _sink_expected(st)
             if got != exp:
-                return {'step': i, 'action': {k: v for k, v in st.items() if k != 'exp'},
-                        'expected': exp, 'observed': got, 'first_record_after_midnight': _virgin_loss(beh, i),
-                        'comlog_off_as_text': _text_off(boot_step['cfg']),
-                        'handler_errors': w.errors[-2:]}
+                res['bad'] = {'sink_behaviour': acts, 'step': i, 'action': {k: v for k, v in st.items() if k != 'exp'},
+                              'expected': exp, 'observed': got, 'first_record_after_midnight': _virgin_loss(beh, i),
+                              'comlog_off_as_text': _text_off(boot_step['cfg']),
+                              'handler_errors': w.errors[-2:]}
+                break
     finally:
         w.close()
-    return None
+    return res
 
 
 CFG_ALPHABET = {'file': ['nodir', 'debug', 'comlog', 'info', 'info', 'warning', 'error', 'off'],
@@ -801,6 +809,20 @@ def _random_sink_trace(seed_n):
     return tr
 
 
+def _emit_raw(cfg, **kw):
+    """like emit_behaviours, but the behaviours stay JSON text (the thorough tier has some 10^5 of them; as python
+    objects in the parent they cost gigabytes, which every forked worker's garbage collector would walk through)"""
+    from ..core import _tla_unescape
+    kw.setdefault('workers', 1)
+    r = run_tlc('Gen_Logging', cfg, **kw)
+    if r.violated or not r.ok:
+        raise MachineryError(f'behaviour emission Gen_Logging/{cfg} failed: {r.violated or r.error}\n{r.out[-2000:]}')
+    pat = '<<"BEH", "'
+    behs = [_tla_unescape(line[len(pat):-3]) for line in r.out.splitlines() if line.startswith(pat) and line.endswith('">>')]
+    r.out = ''
+    return r, behs
+
+
 def _sig_sinks(bad):
     return {'module': 'Logging', 'world': 'sinks', 'action': bad['action']['act'],
             'diff': sorted(k for k in bad['expected'] if bad['expected'][k] != bad['observed'].get(k)),
@@ -849,6 +871,7 @@ def run(chk):
     short = {'env': {'_JAVA_OPTIONS': '-XX:TieredStopAtLevel=1 -XX:ParallelGCThreads=2 -XX:CICompilerCount=1'}} if quick else {}
     gen = lambda cfg, **kw: (lambda: emit_behaviours('Gen_Logging', cfg, maximal_only=False, timeout=1500,
                                                      **dict(short, **kw)))
+    raw = lambda cfg, **kw: (lambda: _emit_raw(cfg, timeout=1500, **dict(short, **kw)))
     nw = 2 if quick else None       # small models side by side: few workers each
     jobs = {
         'mc': lambda: model_check('Logging', f'MC_Logging_{tier}.cfg', timeout=900, workers=nw),
@@ -857,22 +880,24 @@ def run(chk):
         'mc_days': lambda: model_check('Logging', f'MC_Logging_days_{tier}.cfg', timeout=1500, workers=nw),
         'mustfail': lambda: _must_fail('MC_Logging_mustfail_comlog.cfg', 'ComlogNeverInMainFile'),
         'gen': gen(f'Gen_Logging_{tier}.cfg'),
-        'gen_sinks': gen(f'Gen_Logging_sinks_{tier}.cfg'),
-        'gen_days': gen(f'Gen_Logging_days_{tier}.cfg'),
-        'gen_mixed': gen(f'Gen_Logging_mixed_{tier}.cfg'),
+        'gen_sinks': raw(f'Gen_Logging_sinks_{tier}.cfg'),
+        'gen_days': raw(f'Gen_Logging_days_{tier}.cfg'),
+        'gen_mixed': raw(f'Gen_Logging_mixed_{tier}.cfg'),
         'gen_rot': lambda: emit_behaviours('Gen_LogRotation', f'Gen_LogRotation_{tier}.cfg', maximal_only=False,
                                            timeout=600, **short),
     }
     if not quick:
         jobs['mc_levels'] = lambda: model_check('Logging', 'MC_Logging_levels.cfg', timeout=900)  # six levels, two connections
         jobs['gen_sim'] = gen('Gen_Logging_sim.cfg', simulate='num=20000', depth=7, seed=chk.seed + 1, workers=1)
-        jobs['gen_sinks2'] = gen('Gen_Logging_sinks2_thorough.cfg')
-        jobs['gen_sinksim'] = gen('Gen_Logging_sinksim.cfg', simulate='num=20000', depth=9, seed=chk.seed + 2, workers=1)
+        jobs['gen_sinks2'] = raw('Gen_Logging_sinks2_thorough.cfg')
+        jobs['gen_sinksim'] = raw('Gen_Logging_sinksim.cfg', simulate='num=10000', depth=9, seed=chk.seed + 2)
     sanies = [(lambda m=m: sany(m)) for m in ('Logging', 'LogRotation', 'Gen_Logging', 'Trace_Logging',
                                               'Gen_LogRotation', 'Trace_LogRotation')]
     tlc = dict(zip(jobs, run_parallel(sanies + list(jobs.values()), width=16)[len(sanies):]))
     for k, r in tlc.items():
-        chk.add_tlc(r[0] if isinstance(r, tuple) else r)
+        r = r[0] if isinstance(r, tuple) else r
+        chk.add_tlc(r)
+        r.out = ''          # up to some 10^8 characters each
     mark('design+emission')
 
     # 2 every execution of the real code in one pool: replays (spec -> code) and recorded histories (code -> spec)
@@ -923,8 +948,14 @@ def run(chk):
     for j, job in enumerate(cjobs):         # the long jobs first, one per chunk
         items.insert(j * chunk, ('conc', job))
     out = {}
-    for (kind, _), r in zip(items, pool_map(_work, items, chunksize=chunk)):
-        out.setdefault(kind, []).append(r)
+    import gc
+    gc.collect()
+    gc.freeze()       # the workers are forked: keep their collector away from everything that exists already
+    try:
+        for (kind, _), r in zip(items, pool_map(_work, items, chunksize=chunk)):
+            out.setdefault(kind, []).append(r)
+    finally:
+        gc.unfreeze()
     mark('executions')
 
     # 3 verdicts on the recorded executions: three batches of traces validated side by side
@@ -975,17 +1006,15 @@ def run(chk):
 
     # 3b spec -> code, local sinks
     nbad = 0
-    for beh, bad in zip(sbehs, out.get('sinks', [])):
+    for res in out.get('sinks', []):
         chk.impl_traces += 1
-        acts = beh[:1] + [{k: v for k, v in s.items() if k != 'exp'} for s in beh[1:]]
-        nontriv = any(set(s['exp']['last'].get('sinks', ())) - {'console'} for s in beh)
-        chk.case('sinks' + json.dumps(acts, sort_keys=True), nontriv)
-        if bad:
+        chk.case(res['key'], res['nontrivial'])
+        if res['bad']:
             nbad += 1
-            chk.violation(_sig_sinks(bad), {'sink_behaviour': acts, **bad})
+            chk.violation(_sig_sinks(res['bad']), res['bad'])
     chk.notes['sink_behaviours_not_reproduced'] = nbad
     if sbehs:
-        chk.sample({'sink_behaviour': sbehs[len(sbehs) // 2]})
+        chk.sample({'sink_behaviour': json.loads(sbehs[len(sbehs) // 2])})
 
     # 3c code -> spec, routing and local sinks
     verdicts, st, tr, extra = v_rand
@@ -1069,6 +1098,9 @@ def _canned(sbehs):
     """a behaviour of Gen_Logging (all subscriptions off at start) ending with a comLog that reaches the comlog file,
     as a trace"""
     for beh in sbehs:
+        if '"comlog"' not in beh:
+            continue
+        beh = json.loads(beh)
         k = [i for i, st in enumerate(beh) if st['act'] == 'comlog' and 'm1' in st['exp']['last']['sinks']]
         if k and k[0] >= 2 and all(v == 99 for row in beh[0]['exp']['level'].values() for v in row.values()):
             tr = [{'ev': 'boot', 'cfg': beh[0]['cfg'], 'haslevel': False}]
@@ -1085,9 +1117,18 @@ def _canned(sbehs):
 
 def _work(item):
     """one execution of the real code of any kind (all of them share one pool of worker processes)"""
+    import logging
     kind, arg = item
-    return {'routing': _replay_routing, 'sinks': _replay_sinks, 'rtrace': _random_trace,
-            'strace': _random_sink_trace, 'conc': _conc_explore, 'rot': _run_rotation}[kind](arg)
+    ld = logging.Logger.manager.loggerDict
+    before = set(ld)
+    try:
+        return {'routing': _replay_routing, 'sinks': _replay_sinks, 'rtrace': _random_trace,
+                'strace': _random_sink_trace, 'conc': _conc_explore, 'rot': _run_rotation}[kind](arg)
+    finally:
+        # every world registers its loggers with the logging package for good; Logger.setLevel walks through all
+        # of them: without this a worker gets slower with every world it has seen
+        for name in set(ld) - before:
+            del ld[name]
 
 
 def replay(chk, rep):
